@@ -10,14 +10,19 @@ namespace NASim
 
 def INF : Nat := 32767
 
-def initDist (topo : List (List Int)) : List (List Nat) :=
-  let n := topo.length
-  (List.range n).map fun i => (List.range n).map fun j =>
-    if i == j then 0 else if (topo.getD i []).getD j 0 == 1 then 1 else INF
-
 def dget (d : List (List Nat)) (i j : Nat) : Nat := (d.getD i []).getD j INF
 def dset (d : List (List Nat)) (i j v : Nat) : List (List Nat) :=
   d.set i ((d.getD i []).set j v)
+
+/-- `np.full((n, n), max_value)` written through the two nested loops of lines 66-71: 0 on the diagonal, 1 where the
+topology has a 1 -/
+def initDist (topo : List (List Int)) : List (List Nat) :=
+  let n := topo.length
+  (List.range n).foldl (fun d s1 =>
+    (List.range n).foldl (fun d s2 =>
+      if s1 == s2 then dset d s1 s2 0
+      else if (topo.getD s1 []).getD s2 0 == 1 then dset d s1 s2 1 else d) d)
+    (List.replicate n (List.replicate n INF))
 
 /-- the three nested loops, updating the matrix in place -/
 def floydWarshall (d0 : List (List Nat)) : List (List Nat) :=
